@@ -173,7 +173,34 @@ def _as_callable(fn, kind):
     return fn
 
 
-CALLABLES = ['function', 'bound_temp', 'partial', 'object', 'classmethod']
+CALLABLES = ['function', 'bound_temp', 'partial', 'object', 'classmethod',
+             'listener_object']
+
+
+def _listener_object(fn, types, duck):
+    """A listener object of the user's own, put into one of the connection's
+    four public listener lists: the connection dispatches through
+    `call_packet`, so an object that overrides it (a PacketListener subclass
+    whose work is done in call_packet, or any object with that method) is a
+    listener like the ones register_packet_listener builds."""
+    from minecraft.networking.packets import PacketListener
+    types = tuple(types)
+    if duck:
+        class Duck(object):
+            def call_packet(self, packet):
+                if isinstance(packet, types):
+                    fn(packet)
+                    return True
+                return False
+        return Duck()
+
+    class Own(PacketListener):
+        def call_packet(self, packet):
+            if PacketListener.call_packet(self, packet):
+                fn(packet)
+                return True
+            return False
+    return Own(lambda packet: None, *types)
 
 
 def dispatch_case(ctx, case):
@@ -380,6 +407,13 @@ def dispatch_case(ctx, case):
                 # object with __call__
                 fns[l['gid']] = _as_callable(make(by_gid[l['gid']]), ckind)
             fn_l = fns[l['gid']]
+            if ckind == 'listener_object':
+                {'ie': conn.early_packet_listeners,
+                 'io': conn.packet_listeners,
+                 'oe': conn.early_outgoing_packet_listeners,
+                 'oo': conn.outgoing_packet_listeners}[l['cls']].append(
+                     _listener_object(fn_l, types, l['id'] % 3 == 1))
+                continue
             kw = {}
             # flags are used for their truth: True and 1 (False, 0 and None)
             # are the same request
@@ -934,7 +968,7 @@ def t_fixed(ctx):
                 ls[li]['ignore'] = [idx]
                 case = sanitize({'version': v, 'history': hist,
                                  'listeners': ls, 'decorator': idx % 2 == 0,
-                                 'callables': CALLABLES[(li + idx) % 5]})
+                                 'callables': CALLABLES[(li + idx) % len(CALLABLES)]})
                 dispatch_case(ctx, case)
     ctx.sample({'version': 757, 'history': hist, 'listeners': base[:3]},
                'fixed')
